@@ -37,6 +37,8 @@ def install(w):
             return Z(z3.IntVal(len(v.items)))
         if isinstance(v, Obj) and v.cls == "dict":
             return Z(v.attrs["n"])
+        if isinstance(v, Obj) and v.cls == "pyset" and "n" in v.attrs:
+            return v.attrs["n"]
         if isinstance(v, Z):
             s = v.t.sort()
             if s == S.PyList:
@@ -129,7 +131,15 @@ def install(w):
     @b("set")
     def _set(ex, args, kw, e, env):
         if args:
-            raise Unsupported("set(iterable)")
+            # set(<list>): an opaque set whose size is the number of distinct elements, some n with
+            # 0 <= n <= len (n >= 1 for a non-empty list).  ASSUMED: the elements are hashable
+            # (TypeError for an unhashable element is not modelled; listed in the evidence)
+            l = ex.to_list(args[0], getattr(e, "lineno", None))
+            n = ex.w.ufun("distinct_count", ex.S.PyList, z3.IntSort())(l)
+            ex.assume(z3.And(n >= 0, n <= ex.S.len_l(l), z3.Implies(ex.S.len_l(l) > 0, n >= 1)))
+            ex.ctx.notes.append("set(iterable): elements assumed hashable")
+            return Obj("pyset", {"id": Z(ex.w.ufun("set_of", ex.S.PyList, ex.S.Py)(l)), "n": Z(n)},
+                       fresh="shallow")
         # an opaque set: only membership can be asked, answered by an uninterpreted predicate
         return Obj("pyset", {"id": Z(ex.fresh("set", ex.S.Py))}, fresh="shallow")
 
@@ -660,6 +670,17 @@ def install(w):
     # reflection helpers as uninterpreted total functions of their argument (TRUSTED models: they
     # do not raise on the values the library hands them)
     L["dataclasses.is_dataclass"] = _pure_pred("dataclasses.is_dataclass")
+    L["keyword.iskeyword"] = _pure_pred("keyword.iskeyword")
+
+    def make_dataclass(ex, args, kw, e, env):
+        """TRUSTED model of dataclasses.make_dataclass(name, fields): an uninterpreted total
+        function of the field list.  (The real one raises TypeError for a field name that is not
+        an identifier, is a keyword or is repeated; the one call site tests exactly that first.)"""
+        f = ex.w.ufun("make_dataclass", ex.S.Py, ex.S.Py)
+        ex.ctx.notes.append("dataclasses.make_dataclass: assumed total on the field lists the "
+                            "call site lets through (identifier, non-keyword, distinct names)")
+        return Z(f(ex.to_py(args[1])))
+    L["dataclasses.make_dataclass"] = make_dataclass
     L["func_adl.util_types.unwrap_iterable"] = _pure_fun("func_adl.util_types.unwrap_iterable")
     L["func_adl.util_types.is_iterable"] = _pure_pred("func_adl.util_types.is_iterable")
 
@@ -900,6 +921,10 @@ def value_methods(ex, obj, name, args, kw, line):
         if name == "format":
             f = ex.w.ufun("str_format", z3.StringSort(), S.Py, z3.StringSort())
             return Z(f(obj.t, ex.to_py(Tup(args))))
+        if name in ("isidentifier", "isdecimal", "isdigit", "isalpha", "isalnum") and not args:
+            # character-class predicates: uninterpreted (total, no exception)
+            f = ex.w.ufun(f"str_{name}", z3.StringSort(), z3.BoolSort())
+            return Z(f(obj.t))
         if name == "startswith":
             return Z(z3.PrefixOf(ex.to_str(args[0], line), obj.t))
         if name == "endswith":
@@ -912,7 +937,8 @@ def value_methods(ex, obj, name, args, kw, line):
             return Z(f(obj.t))
     if isinstance(obj, Z) and obj.t.sort() == S.Py:
         # str methods on a Py known to be a str
-        if name in ("lower", "strip", "startswith", "endswith", "format"):
+        if name in ("lower", "strip", "startswith", "endswith", "format", "isidentifier",
+                    "isdecimal", "isdigit", "isalpha", "isalnum"):
             s = ex.to_str(obj, line)
             return value_methods(ex, Z(s), name, args, kw, line)
     if isinstance(obj, Obj) and obj.cls == "dict":
